@@ -18,10 +18,68 @@ NP_DT = {"f64": np.float64, "f32": np.float32, "f16": np.float16,
 # array  : {"dt": "f64", "shape": [n, k], "v": [python floats / ints / strs, flat, row-major]}
 # tol    : ["num", x] | ["arr", shape, [x…]] | ["dflt"] | ["scaled", base|None] | ["scomp", base]
 
-def np_array(arr: dict) -> np.ndarray:
+def np_array(arr: dict):
     if arr["dt"] == "str":
-        return np.array(arr["v"], dtype=str).reshape(arr["shape"])
-    return np.array(arr["v"], dtype=NP_DT[arr["dt"]]).reshape(arr["shape"])
+        x = np.array(arr["v"], dtype=str).reshape(arr["shape"])
+    else:
+        x = np.array(arr["v"], dtype=NP_DT[arr["dt"]]).reshape(arr["shape"])
+    rep = arr.get("rep")
+    return as_rep(x, rep) if rep else x
+
+
+# optional key "rep" of an array dict: HOW the same logical values are handed to the implementation (phase 6 G1).
+# Every representation holds exactly the values of the plain C-contiguous native array, so every expectation computed
+# from "v"/"shape" (oracles, Lean model) is unchanged.
+REPS_ARRAY = ["fortran", "strided", "negstride", "offset", "bigendian", "readonly", "frombuffer"]
+REPS_PY = ["list", "tuple"]        # array-likes; only where the element type survives (f64 / i64 / str, size > 0)
+
+
+def rep_applicable(arr: dict, rep: str) -> bool:
+    size = len(arr["v"])
+    if rep in REPS_PY:
+        return arr["dt"] in ("f64", "i64", "str") and size > 0
+    if rep == "bigendian":
+        return arr["dt"] not in ("str", "i8", "u8")
+    if rep == "fortran":
+        return len(arr["shape"]) >= 2
+    if rep in ("strided", "negstride", "offset"):
+        return len(arr["shape"]) >= 1
+    return True
+
+
+def as_rep(x: np.ndarray, rep: str):
+    if rep == "list":
+        return x.tolist()
+    if rep == "tuple":
+        def tup(v):
+            return tuple(tup(e) for e in v) if isinstance(v, list) else v
+        return tup(x.tolist())
+    if rep == "fortran":
+        return np.asfortranarray(x)
+    if rep == "strided":                 # every second row of a buffer twice as long
+        big = np.empty((2 * x.shape[0],) + x.shape[1:], dtype=x.dtype)
+        big[...] = np.zeros((), dtype=x.dtype)
+        big[::2] = x
+        return big[::2]
+    if rep == "negstride":               # stored back to front, seen through a reversing view
+        return np.ascontiguousarray(x[::-1])[::-1]
+    if rep == "offset":                  # a window into a longer buffer (non-zero offset, base is not the array)
+        big = np.empty((x.shape[0] + 3,) + x.shape[1:], dtype=x.dtype)
+        big[...] = np.zeros((), dtype=x.dtype)
+        big[2:2 + x.shape[0]] = x
+        return big[2:2 + x.shape[0]]
+    if rep == "bigendian":
+        return x.astype(x.dtype.newbyteorder(">"))
+    if rep == "readonly":
+        y = x.copy()
+        y.setflags(write=False)
+        return y
+    if rep == "frombuffer":              # what the VTK readers produce: read-only, memory owned by a bytes object
+        if x.dtype.kind == "U":
+            y = x.copy(); y.setflags(write=False)
+            return y
+        return np.frombuffer(x.tobytes(), dtype=x.dtype).reshape(x.shape)
+    raise ValueError(rep)
 
 
 def impl_tol(t):
@@ -29,6 +87,9 @@ def impl_tol(t):
     k = t[0]
     if k == "num":
         return float(t[1])
+    if k == "int":                       # a Python int given as tolerance (0, 1, ...)
+        assert float(int(t[1])) == float(t[1])
+        return int(t[1])
     if k == "np64":
         return np.float64(t[1])
     if k == "arr":
@@ -85,8 +146,8 @@ def enc_arr(arr: dict, strtab: dict | None = None) -> str:
 
 def enc_tol(t) -> str:
     k = t[0]
-    if k == "num":
-        return f"num {f2u(t[1])}"
+    if k in ("num", "int", "np64"):      # the same number for the model, however it is handed over
+        return f"num {f2u(float(t[1]))}"
     if k == "arr":
         sh = t[1]
         us = [str(f2u(x)) for x in t[2]]
@@ -138,7 +199,7 @@ def _row_size(shape):
 def oracle_tol_at(t, a: dict, b: dict, shape, i: int, eps: float):
     """tolerance at flat index i as the documentation demands; None = not defined (error)"""
     k = t[0]
-    if k in ("num", "np64"):
+    if k in ("num", "np64", "int"):
         return float(t[1])
     if k == "arr":
         if list(t[1]) != list(shape[1:]):
